@@ -72,7 +72,7 @@ Dest == 1..NDest
 -----------------------------------------------------------------------------
 (* Types of actions and messages.  "A","m" untyped; "T","M" declared with    *)
 (* ActionType / MessageType (harness field serializers on x / y).            *)
-ActTypes == {"A", "T"}
+ActTypes == {"A", "T", "E"}       \* "E": the default, EMPTY action type (start_action() without action_type)
 MsgTypes == {"m", "M", "h", "N", "N0"}   \* "N": MessageType declared with fields(n=int); "N0": the same type logged WITHOUT its field       \* "h": a message whose field value is hostile (not JSON-able, str()/repr() raise, ...)
 IsTyped(ty) == ty \in {"T", "M", "eliot:traceback"}
 StartFields(ty)   == IF ty = "T" THEN {"x"} ELSE {"sa"}
@@ -537,8 +537,8 @@ Next ==
   \/ F("abort") /\ \E d \in Dest : DeliverAbort(d)
   \/ \E r \in BOOLEAN : Serialize(r) /\ (r => F("sfault"))
   \/ \E c \in Ctx :
-       \/ \E ty \in ActTypes : (ty = "T" => F("typed")) /\ StartAction(c, ty)
-       \/ F("task") /\ StartTask(c, "A")
+       \/ \E ty \in ActTypes : (ty = "T" => F("typed")) /\ (ty = "E" => F("emptytype")) /\ StartAction(c, ty)
+       \/ F("task") /\ \E ty \in {"A", "E"} : (ty = "E" => F("emptytype")) /\ StartTask(c, ty)
        \/ \E a \in DOMAIN acts : \/ Enter(c, "with", a)
                                  \/ F("ctx") /\ Enter(c, "ctx", a)
                                  \/ F("run") /\ Enter(c, "run", a)
